@@ -193,6 +193,31 @@ def lt_equal(a: LT, b: LT, eq: Callable[[Any, Any], z3.BoolRef], subst: Callable
     if not sa or not sb:
         # one side is the empty list: equal iff the other one is empty too (decided by the solver)
         return lt_empty(LT(sa or sb), lambda ab: z3.BoolVal(False))
+    def singletons(segs):
+        """[(guard, value)] if the list is a run of guarded single elements with pairwise exclusive guards (so that it
+        holds at most one element), else None"""
+        out = []
+        for x in segs:
+            if isinstance(x, Guard) and len(x.lt.segs) == 1 and isinstance(x.lt.segs[0], Unit):
+                out.append((x.cond, x.lt.segs[0].v))
+            else:
+                return None
+        for i in range(len(out)):
+            for k in range(i + 1, len(out)):
+                if not implied(z3.And(out[i][0], out[k][0]), z3.BoolVal(False)):
+                    return None
+        return out
+    if len(sa) > 1 or len(sb) > 1:
+        pa, pb = singletons(sa), singletons(sb)
+        if pa is not None and pb is not None:
+            # each side holds at most one element: equal iff one is present on both sides or on neither, and where
+            # both are present they are the same - whatever the order in which the alternatives are written
+            conj = [z3.Or(*[g for g, _ in pa]) == z3.Or(*[g for g, _ in pb])]
+            for ga, xa in pa:
+                for gb, xb in pb:
+                    if not implied(z3.And(ga, gb), z3.BoolVal(False)):
+                        conj.append(z3.Implies(z3.And(ga, gb), eq(xa, xb)))
+            return z3.And(*conj)
     if len(sa) != len(sb):
         raise ShapeMismatch(f"different number of segments: {len(sa)} vs {len(sb)}:\n  {sa}\n  {sb}")
     conj = []
